@@ -499,6 +499,25 @@ def c17(run):
                              "SnapToGrid decimal places -320..320 on ordinates up to +-1.8e308 and random bit patterns; Reverse and "
                              "ForceCW/CCW on lattice geometries of every type"}
     shapes_stage(run, "linear", "Trace_Linear", lambda c, i: [{"kind": "orient", "w": c["wa"], "ct": i % 4}])
+
+    def lin(c, i):
+        """every line of the small-scope universe, also with a repeated first / middle / last vertex, through Densify
+        and Simplify with a rotating choice of parameters (all of them on the thorough tier)"""
+        w = c["wa"]
+        if not w.startswith("LINESTRING("):
+            return []
+        pts = [[int(v) for v in p.split()] for p in w[len("LINESTRING("):-1].split(",")]
+        variants = [pts, [pts[0]] + pts, pts[:1] + [pts[1], pts[1]] + pts[2:], pts + [pts[-1]]]
+        dens = [(1, 2), (1, 1), (3, 2), (5, 1)]
+        simp = [(0, 1), (1, 2), (1, 1), (2, 1)]
+        out = []
+        for v, line in enumerate(variants):
+            ks = range(4) if run.tier == "thorough" else [(i + v) % 4]
+            for k in ks:
+                out.append({"kind": "densify", "line": line, "dn": dens[k][0], "dd": dens[k][1], "ct": (i + k) % 4})
+                out.append({"kind": "simplify", "line": line, "tn": simp[k][0], "td": simp[k][1], "ring": line[0] == line[-1] and len(line) >= 4 and k % 2 == 0, "ct": (i + v) % 4})
+        return out
+    pairs_stage(run, "linear", "Trace_Linear", "Gen_Shapes.cfg", lin, "lines", gen="Gen_Shapes")
     family_random(run, "linear", "Trace_Linear", tier_n(run, 16000, 600000))
 
 FAMILY_MODULE["empty"] = "Trace_Empties"
